@@ -12,7 +12,8 @@ CONSTANTS Comp = "multi"
   NBuf = 2
   Gaps <- G_6
   Strict = TRUE
-  D = 6
+  Busy = FALSE
+  D = 7
 INIT Init
 NEXT Next
 VIEW viewE
